@@ -2,22 +2,22 @@
 # Confirm a seeded change in my own scratch worktree: suite passes with the patch, demo fails with it and passes without it.
 # usage: seed_confirm.sh <dir containing patch.diff and demo/>   (prints a JSON summary line; exit 0 if all three confirmed)
 set -u
-D=$(readlink -f "$1"); WT=/tmp/seedconfirm
+D=$(readlink -f "$1"); WT=${SEEDWT:-/tmp/seedconfirm}
 if [ ! -d $WT ]; then git -C /repo worktree add --detach $WT HEAD -q; cp -r /repo/target $WT/target; fi
 cd $WT; git checkout -q --detach $(git -C /repo rev-parse HEAD); git checkout -- . ; rm -f tests/demo.rs; rm -rf tests/demo_files
 if ! git apply --check "$D/patch.diff" 2>/dev/null; then echo "{\"dir\":\"$D\",\"applies\":false}"; exit 1; fi
 run_demo() {
   if [ -f "$D/demo/demo.rs" ]; then
     cp "$D/demo/demo.rs" tests/demo.rs; for f in "$D"/demo/*; do case "$f" in *demo.rs) ;; *) mkdir -p tests/demo_files; cp -r "$f" tests/demo_files/ ;; esac; done
-    CARGO_NET_OFFLINE=true timeout 1200 cargo test --offline --test demo >/tmp/seedconfirm.demo.log 2>&1; rc=$?
+    CARGO_NET_OFFLINE=true timeout 1200 cargo test --offline --test demo >$WT.demo.log 2>&1; rc=$?
     rm -f tests/demo.rs; rm -rf tests/demo_files; return $rc
   elif [ -f "$D/demo/demo.sh" ]; then
-    CARGO_NET_OFFLINE=true cargo build --offline -q 2>/dev/null; (cd "$D/demo" && timeout 600 bash ./demo.sh $WT/target/debug/darklua) >/tmp/seedconfirm.demo.log 2>&1; return $?
+    CARGO_NET_OFFLINE=true cargo build --offline -q 2>/dev/null; (cd "$D/demo" && timeout 600 bash ./demo.sh $WT/target/debug/darklua) >$WT.demo.log 2>&1; return $?
   else return 99; fi
 }
 git apply "$D/patch.diff"
-CARGO_NET_OFFLINE=true timeout 3000 cargo nextest run --workspace --no-fail-fast --test-threads 8 --offline >/tmp/seedconfirm.suite.log 2>&1; suite=$?
-summary=$(grep -E "^\s+Summary" /tmp/seedconfirm.suite.log | tail -1 | sed 's/^ *//')
+CARGO_NET_OFFLINE=true timeout 3000 cargo nextest run --workspace --no-fail-fast --test-threads 8 --offline >$WT.suite.log 2>&1; suite=$?
+summary=$(grep -E "^\s+Summary" $WT.suite.log | tail -1 | sed 's/^ *//')
 run_demo; with=$?
 git apply -R "$D/patch.diff"
 run_demo; without=$?
